@@ -12,7 +12,7 @@ Lex::next must terminate within len+2 calls, every token consumes >=1 byte, conc
 (2) integer spellings [+-]?(0x H+|0b B+|0 H*|D+) with `_` after digits, magnitudes up to 2^130: value accumulated digit by digit, in range => Int(v), out of range => error; \
 (3) real spellings [+-]?D+.D*([eE][+-]?D+)? with `_`: exact mantissa*10^k for <=15 digits and |k|<=22, otherwise correctly rounded std parse of the cleaned text; \
 (4) strings escaped as documented decode to the original, unknown escapes / unterminated literals are errors, bit-string literals denote 4 bits per hex digit and 1 per x/.; \
-(5) print/read: format_cell of Int / Bitstr (all lengths 0..70, all alignments) / nested vectors and int-keyed maps of those, evaluated as source, leaves one equal? value. \
+(5) print/read: Int / Bitstr (all lengths 0..70 and 1 in 6 of 200..500 bits, all alignments) / nested vectors and int-keyed maps of those (1 in 6 with 10..25 entries) printed by format_cell, by the `print` word or by the plain Debug rendering, evaluated as source, leaves one equal? value. \
 Non-trivial = (1) >=3 tokens incl. a literal or comment opener, (2-3) spelling with `_`, sign or prefix, or near the range limit, (4) escape or non-nibble bits, (5) unaligned/non-nibble bit-string or nested container; distinct = hash of the text",
     assumptions: &["spellings outside the stated grammars are only checked for totality/tiling"],
     max_len: 300,
@@ -437,7 +437,8 @@ fn gen_printable(ch: &mut Choices, depth: usize, nested: &mut bool, odd: &mut bo
             _ => Cell::Int(*[i128::MAX, i128::MIN, i128::MIN + 1, 0, -1].get(ch.below(5)).unwrap()),
         },
         1 => {
-            let len = ch.below(71);
+            // (1 in 6 long: more than a screen line of hex)
+            let len = if ch.chance(1, 6) { 200 + ch.below(300) } else { ch.below(71) };
             let off = ch.below(8);
             let mut all: Vec<bool> = (0..off).map(|_| true).collect();
             for _ in 0..len {
@@ -451,7 +452,7 @@ fn gen_printable(ch: &mut Choices, depth: usize, nested: &mut bool, odd: &mut bo
         }
         2 => {
             *nested = true;
-            let n = ch.below(5);
+            let n = if ch.chance(1, 6) { 10 + ch.below(16) } else { ch.below(5) };
             let mut v = Xvec::new();
             for _ in 0..n {
                 v.push_back_mut(gen_printable(ch, depth - 1, nested, odd));
@@ -460,7 +461,7 @@ fn gen_printable(ch: &mut Choices, depth: usize, nested: &mut bool, odd: &mut bo
         }
         _ => {
             *nested = true;
-            let n = ch.below(4);
+            let n = if ch.chance(1, 6) { 10 + ch.below(16) } else { ch.below(4) };
             let mut m = Xmap::new();
             for _ in 0..n {
                 let k = Cell::Int(ch.range(-50, 50) as i128);
@@ -478,13 +479,37 @@ fn print_read(ch: &mut Choices, out: &mut CaseOut, ctx: &CaseCtx) {
     let v = gen_printable(ch, 3, &mut nested, &mut odd);
     let mut xs = xs::fresh();
     xs.set_insn_limit(Some(100_000)).unwrap();
-    let text = match guard(|| xs.format_cell(&v)) {
-        Ok(Ok(t)) => t,
-        other => {
-            out.fail("format_cell fails", format!("{:?} -> {:?}", v, other));
-            return;
+    // three printers: format_cell (what the embedder calls), the `print` word, and the plain Debug rendering that error
+    // messages and the REPL's stack view are built from
+    let route = ch.weighted(&[3, 2, 2]);
+    let text = match route {
+        0 => match guard(|| xs.format_cell(&v)) {
+            Ok(Ok(t)) => t,
+            other => {
+                out.fail("format_cell fails", format!("{:?} -> {:?}", v, other));
+                return;
+            }
+        },
+        1 => {
+            xs.intercept_output(true).unwrap();
+            xs.push_data(v.clone()).unwrap();
+            match guard(|| xs.eval("print")) {
+                Ok(Ok(())) => xs::take_stdout(&mut xs),
+                other => {
+                    out.fail("print fails", format!("{:?} -> {:?}", v, other.map(|r| xs::render_res(&r))));
+                    return;
+                }
+            }
         }
+        _ => match guard(|| format!("{:?}", v)) {
+            Ok(t) => t,
+            Err(pm) => {
+                out.fail(format!("panic: {}", pm), "Debug rendering of a value".to_string());
+                return;
+            }
+        },
     };
+    out.class(["printed-by-format_cell", "printed-by-print-word", "printed-by-debug-rendering"][route]);
     match guard(|| xs.eval(&text)) {
         Err(p) => out.fail(format!("panic evaluating printed value: {}", p), text.clone()),
         Ok(Err(e)) => out.fail("printed value does not read back", format!("{:?} -> {:?}", text, e)),
